@@ -12,7 +12,58 @@ import (
 
 // controlOverlay builds the in-memory replacement for one positive control: the anchored construct
 // is mutated in memory (packages.Config.Overlay); nothing is written to the repository.
+// seedOverlay applies a kept seeded change (/verif/seeded/<dir>/patch.diff) to temporary copies of the
+// files it touches and returns them as an in-memory overlay. Nothing is written to the repository.
+func seedOverlay(dir string) (map[string][]byte, error) {
+	patch := filepath.Join(*flagVerif, "seeded", dir, "patch.diff")
+	pb, err := os.ReadFile(patch)
+	if err != nil {
+		return nil, err
+	}
+	tmp, err := os.MkdirTemp("", "zcheck-seed-")
+	if err != nil {
+		return nil, err
+	}
+	defer os.RemoveAll(tmp)
+	var files []string
+	for _, l := range strings.Split(string(pb), "\n") {
+		if strings.HasPrefix(l, "+++ b/") {
+			files = append(files, strings.TrimSpace(strings.TrimPrefix(l, "+++ b/")))
+		}
+	}
+	if len(files) == 0 {
+		return nil, fmt.Errorf("CONTROL-UNSEEDABLE: %s: no files in patch", dir)
+	}
+	for _, f := range files {
+		dst := filepath.Join(tmp, f)
+		if err := os.MkdirAll(filepath.Dir(dst), 0o755); err != nil {
+			return nil, err
+		}
+		if b, err := os.ReadFile(filepath.Join(*flagRepo, f)); err == nil {
+			if err := os.WriteFile(dst, b, 0o644); err != nil {
+				return nil, err
+			}
+		}
+	}
+	cmd := exec.Command("patch", "-p1", "-s", "--no-backup-if-mismatch", "-F0", "-d", tmp, "-i", patch)
+	if out, err := cmd.CombinedOutput(); err != nil {
+		return nil, fmt.Errorf("CONTROL-UNSEEDABLE: %s: the seeded change no longer applies to this tree (%s)", dir, firstLines(string(out), 2))
+	}
+	ov := map[string][]byte{}
+	for _, f := range files {
+		b, err := os.ReadFile(filepath.Join(tmp, f))
+		if err != nil {
+			return nil, err
+		}
+		ov[filepath.Join(*flagRepo, f)] = b
+	}
+	return ov, nil
+}
+
 func controlOverlay(def *propDef, name string) (map[string][]byte, error) {
+	if strings.HasPrefix(name, "seed:") {
+		return seedOverlay(strings.TrimPrefix(name, "seed:"))
+	}
 	for _, c := range def.Controls {
 		if c.Name != name {
 			continue
@@ -44,10 +95,20 @@ func thoroughExtras(r *Run, def *propDef) {
 		out string
 		err error
 	}
-	results := make([]res, len(def.Controls))
+	ctrls := append([]control(nil), def.Controls...)
+	// every kept seeded change of this property is a positive control too: analysed as an in-memory
+	// variant, it must make some rule of this property fire
+	if ents, err := os.ReadDir(filepath.Join(*flagVerif, "seeded")); err == nil {
+		for _, e := range ents {
+			if e.IsDir() && strings.HasPrefix(e.Name(), def.ID+"-") {
+				ctrls = append(ctrls, control{Name: "seed:" + e.Name(), File: "seeded/" + e.Name() + "/patch.diff", Old: "(unchanged tree)", New: "(seeded change applied)", ExpectKeySub: ""})
+			}
+		}
+	}
+	results := make([]res, len(ctrls))
 	sem := make(chan struct{}, 6)
 	var wg sync.WaitGroup
-	for i, c := range def.Controls {
+	for i, c := range ctrls {
 		wg.Add(1)
 		go func(i int, c control) {
 			defer wg.Done()
